@@ -1,15 +1,14 @@
-import DepsDev.Proofs.C03L3Interval
-import DepsDev.Proofs.C03Npm
+import DepsDev.Proofs.C03L3Npm
 
 /-!
-# C03 layer L3 for npm: one comparator, prerelease candidates
+# C03 layer L3: interval membership of a prerelease candidate = node's comparator tests
 
-For every operator, every operand shape of layer L1 and every **prerelease** candidate outside the
-finding classes `pre000`/`lt0pre`, `gt-succ-pre`, `lt-partial-pre`, release-mode membership in the
-span built by `opVersionToSpan` (bounds tests and the library's admission rule) equals
-`semver.satisfies` of the single-comparator range (node's comparator tests and its rule "some
-comparator with the candidate's `[major, minor, patch]` has a prerelease"). The comparison of the
-candidate's identifiers with the operand's is the hypothesis `PreAgree`.
+Layer L1 for prerelease candidates, in the interval sense (`contains v true`, no admission rule):
+for every operator, every operand shape and every prerelease candidate outside the classes
+`pre000`, `gt-succ-pre`, `lt-partial-pre`, the candidate lies between the bounds of the comparator's
+span iff every desugared comparator of node-semver accepts it (`Prim.test`; node's admission rule is
+separate). With `L3Npm` (which includes both admission rules) this separates "in the interval"
+from "admitted", which is what AND lists need.
 -/
 namespace DepsDev.Proofs.C03
 
@@ -18,26 +17,50 @@ open DepsDev DepsDev.Semver DepsDev.Ref
 set_option linter.unusedSimpArgs false
 set_option linter.unusedVariables false
 
-/-- Reference side for a prerelease candidate: the whole single-comparator `satisfies`. -/
-macro "l3_ref" : tactic => `(tactic|
+/-- Inclusive-mode membership in the span `newSpan` builds, any candidate. -/
+theorem interval_incl {sys : System} (hg : IsGen sys) {min max x : Version} (mo xo : Bool)
+    (hmin : G3 sys min) (hmax : G3 sys max) (hx : G3 sys x) :
+    (newSpan min mo max xo).bind (fun s => s.contains x true) =
+      if cmp3 (nmin min) (nmax max) = 0 then .ok (!(mo || xo) && decide (cmp3 x (nmin min) = 0))
+      else if cmp3 (nmin min) (nmax max) < 0 then
+        .ok (decide (¬ ((cmp3 x (nmin min) = 0 ∧ mo = true) ∨ cmp3 x (nmin min) < 0) ∧
+                     ¬ ((cmp3 (nmax max) x = 0 ∧ xo = true) ∨ cmp3 (nmax max) x < 0)))
+      else .err := by
+  have ga := nmin_g3 hg hmin
+  have gb := nmax_g3 hmax
+  rw [newSpan_g3 hg mo xo hmin hmax]
+  by_cases hc0 : cmp3 (nmin min) (nmax max) = 0
+  · simp only [hc0, ↓reduceIte]
+    by_cases ho : (mo || xo) = true
+    · simp [ho, Outcome.bind, Span.contains, Span.emptySpan]
+    · have ho' : (mo || xo) = false := by simpa using ho
+      simp only [ho', Bool.false_eq_true, ↓reduceIte, Outcome.bind, Span.contains, compareOpt, vcompare_g3 ga hx, bind,
+        Bool.not_false, Bool.true_and]
+      congr 1
+      rw [cmp3_swap hx ga, Bool.eq_iff_iff]
+      simp only [beq_iff_eq, decide_eq_true_eq]
+      omega
+  · by_cases hlt : cmp3 (nmin min) (nmax max) < 0
+    · simp only [hc0, hlt, ↓reduceIte]
+      simp only [Outcome.bind, bind, Span.contains, vcompare_g3 hx ga, vcompare_g3 gb hx, ↓reduceIte]
+      by_cases h1 : (cmp3 x (nmin min) = 0 ∧ mo = true) ∨ cmp3 x (nmin min) < 0
+      · simp [h1]
+      · by_cases h2 : (cmp3 (nmax max) x = 0 ∧ xo = true) ∨ cmp3 (nmax max) x < 0
+        · simp [h1, h2]
+        · simp [h1, h2]
+    · simp [hc0, hlt, Outcome.bind]
+
+/-- Reference side: the conjunction of the desugared comparators' tests. -/
+macro "l1p_ref" : tactic => `(tactic|
   simp [cmp3, t3, Version.getNum, preInt, thenInt_lt, thenInt_gt, thenInt_le, thenInt_ge, thenInt_eq0,
-    lex3_lt, lex3_gt, lex3_le, lex3_ge, lex3_eq0, comparePre_self, equalValues,
-    NpmRange.satisfies, rangeSets, comparatorSet, testSet, gte0, Prim.isNull, Prim.isAny,
+    lex3_lt, lex3_gt, lex3_le, lex3_ge, lex3_eq0, comparePre_self,
     desugarComparator, Partial.isX, Partial.num, Prim.test, SemVerAst.cmp, ge, lt0, nullSet, zeroPre,
     then_lt, then_eq, then_gt, ne_gt, ne_lt, Nat.compare_eq_lt, Nat.compare_eq_eq, Nat.compare_eq_gt,
     cmpPre, Gen.SemverTables.minPre, Outcome.bind, Span.contains, Span.emptySpan, *])
 
-/-- Arithmetic, after unfolding `Value`. -/
-macro "l3_arith" : tactic => `(tactic| ((try simp only [Value] at *) <;> omega))
-
-macro "l3_side" : tactic => `(tactic|
-  (simp [cmp3, t3, Version.getNum, preInt, thenInt_gt, thenInt_eq0, thenInt_lt, lex3_gt, lex3_eq0, lex3_lt,
-       Gen.SemverTables.minPre, comparePre_self, *] <;> l3_arith))
-
-/-- Goal `(newSpan L o1 H o2).bind (contains x) = ok ref` for an operand without prerelease tag. -/
-macro "l3_iv0" : tactic => `(tactic|
-  (rw [interval_pre (sys := System.npm) (by simp [IsGen]) _ _ (g3_mk _ _ rfl rfl (by simp)) (g3_mk _ _ rfl rfl (by simp))
-        (g3_mk _ _ rfl rfl (by simp)) (by simp)]
+macro "l1p_iv" : tactic => `(tactic|
+  (rw [interval_incl (sys := System.npm) (by simp [IsGen]) _ _ (g3_mk _ _ rfl rfl (by simp)) (g3_mk _ _ rfl rfl (by simp))
+        (g3_mk _ _ rfl rfl (by simp))]
    simp [nmin, nmax, Version.major, Version.getNum, Version.setTail, Version.atLeast3, range3, wild_val, inf_val,
      List.findIdx?_cons, minVersion, natCast_beq_wild, natCast_ne_wild, natCast_succ_beq_wild, natCast_succ_ne_wild, *]
    first
@@ -45,53 +68,49 @@ macro "l3_iv0" : tactic => `(tactic|
       · l3_side
       · l3_side
       · rw [Bool.eq_iff_iff]
-        l3_ref <;> l3_arith)
+        l1p_ref <;> l3_arith)
    | (refine ite3_unit ?_ ?_
       · l3_side
       · rw [Bool.eq_iff_iff]
-        l3_ref <;> l3_arith)))
+        l1p_ref <;> l3_arith)))
 
-macro "l3_dir0" : tactic => `(tactic| (l3_ref <;> l3_arith))
+macro "l1p_dir" : tactic => `(tactic| (l1p_ref <;> l3_arith))
 
-macro "l3_npm0" : tactic => `(tactic| first
-  | l3_iv0
-  | (split <;> first | l3_iv0 | l3_dir0)
-  | l3_dir0)
+macro "l1p_npm0" : tactic => `(tactic| first
+  | l1p_iv
+  | (split <;> first | l1p_iv | l1p_dir)
+  | l1p_dir)
 
-/-- The statement of L3 for one operator, one operand and one prerelease candidate. -/
-def L3Body (op : Op) (nums : List XR) (pre : List Ident) (x y z : Nat) (i : Ident) (l : List Ident) : Prop :=
+/-- The statement for one operator, one operand and one prerelease candidate. -/
+def L1PBody (op : Op) (nums : List XR) (pre : List Ident) (x y z : Nat) (i : Ident) (l : List Ident) : Prop :=
   x < B∞ → y < B∞ → z < B∞ →
   (pre ≠ [] → PreAgree .npm (i :: l) pre) →
   NpmRange.pre000 ⟨x, y, z, i :: l⟩ = false →
   NpmRange.gtSuccPre [.comps [⟨op, ⟨nums, pre⟩⟩]] ⟨x, y, z, i :: l⟩ = false →
   NpmRange.ltPartialPre [.comps [⟨op, ⟨nums, pre⟩⟩]] ⟨x, y, z, i :: l⟩ = false →
     (opVersionToSpan (tokOf op) (embedPartial .npm ⟨nums, pre⟩)).bind
-        (fun s => s.contains (embedVer .npm ⟨x, y, z, i :: l⟩) false)
-      = .ok (NpmRange.satisfies [.comps [⟨op, ⟨nums, pre⟩⟩]] ⟨x, y, z, i :: l⟩)
+        (fun s => s.contains (embedVer .npm ⟨x, y, z, i :: l⟩) true)
+      = .ok ((desugarComparator ⟨op, ⟨nums, pre⟩⟩).all (·.test ⟨x, y, z, i :: l⟩))
 
-/-- The statement of L3 for one operator and one operand. -/
-def L3At (op : Op) (nums : List XR) (pre : List Ident) : Prop :=
-  ∀ (x y z : Nat) (i : Ident) (l : List Ident), L3Body op nums pre x y z i l
+/-- The statement for one operator and one operand. -/
+def L1PAt (op : Op) (nums : List XR) (pre : List Ident) : Prop :=
+  ∀ (x y z : Nat) (i : Ident) (l : List Ident), L1PBody op nums pre x y z i l
 
-/-- Full operand without prerelease tag. -/
-def L3Full (op : Op) : Prop :=
-  ∀ (a b c : Nat), a < B∞' → b < B∞' → c < B∞' → L3At op [.n a, .n b, .n c] []
+def L1PFull (op : Op) : Prop :=
+  ∀ (a b c : Nat), a < B∞' → b < B∞' → c < B∞' → L1PAt op [.n a, .n b, .n c] []
 
-/-- Full operand with a prerelease tag (not `<=0.0.0-pre`). -/
-def L3Pre (op : Op) : Prop :=
+def L1PPre (op : Op) : Prop :=
   ∀ (a b c : Nat), a < B∞' → b < B∞' → c < B∞' → ∀ (j : Ident) (l' : List Ident),
-    (op = .le → ¬ (a = 0 ∧ b = 0 ∧ c = 0)) → L3At op [.n a, .n b, .n c] (j :: l')
+    (op = .le → ¬ (a = 0 ∧ b = 0 ∧ c = 0)) → L1PAt op [.n a, .n b, .n c] (j :: l')
 
-/-- Partial operand (fewer than three components, or trailing wildcards). -/
-def L3Part (op : Op) : Prop :=
-  ∀ (nums : List XR), TShape nums → ¬ (nums.length = 3 ∧ XR.x ∉ nums) → L3At op nums []
+def L1PPart (op : Op) : Prop :=
+  ∀ (nums : List XR), TShape nums → ¬ (nums.length = 3 ∧ XR.x ∉ nums) → L1PAt op nums []
 
-/-- The statement of L3 for one operator. -/
-def L3Npm (op : Op) : Prop :=
+def L1PNpm (op : Op) : Prop :=
   ∀ (nums : List XR), TShape nums → ∀ (pre : List Ident), (pre ≠ [] → nums.length = 3 ∧ XR.x ∉ nums) →
-  (op = .le → pre ≠ [] → nums ≠ [.n 0, .n 0, .n 0]) → L3At op nums pre
+  (op = .le → pre ≠ [] → nums ≠ [.n 0, .n 0, .n 0]) → L1PAt op nums pre
 
-theorem l3_assemble (op : Op) (h1 : L3Full op) (h2 : L3Pre op) (h3 : L3Part op) : L3Npm op := by
+theorem l1p_assemble (op : Op) (h1 : L1PFull op) (h2 : L1PPre op) (h3 : L1PPart op) : L1PNpm op := by
   intro nums hs pre hpre hle
   by_cases hfull : nums.length = 3 ∧ XR.x ∉ nums
   · cases hs with
@@ -108,24 +127,24 @@ theorem l3_assemble (op : Op) (h1 : L3Full op) (h2 : L3Pre op) (h3 : L3Part op) 
     subst hp
     exact h3 nums hs hfull
 
-macro "l3_full" : tactic => `(tactic| (
+macro "l1p_full" : tactic => `(tactic| (
   intro a b c ha hb hc x y z i l hx hy hz hpa h000 hgs hlp
   have hz0 := cmpIdents_zero_ne_lt i l
   try simp [NpmRange.pre000] at h000
   have ia := natCast_beq_inf a ha; have ja := value_inc_nat a ha; have ka := natCast_succ_ne_inf a ha; have ib := natCast_beq_inf b hb; have jb := value_inc_nat b hb; have kb := natCast_succ_ne_inf b hb; have ic := natCast_beq_inf c hc; have jc := value_inc_nat c hc; have kc := natCast_succ_ne_inf c hc
   try simp [NpmRange.gtSuccPre, NpmRange.allComps] at hgs
   try simp [NpmRange.ltPartialPre, NpmRange.allComps, Partial.isPartial, Partial.isX, Partial.num] at hlp
-  by_cases h0 : a = 0 <;> by_cases h1 : b = 0 <;> by_cases h2 : c = 0 <;> l1_eval <;> l3_npm0))
+  by_cases h0 : a = 0 <;> by_cases h1 : b = 0 <;> by_cases h2 : c = 0 <;> l1_eval <;> l1p_npm0))
 
 /-- Full operand with a prerelease tag, for one outcome `o` of the comparison of the candidate's
 identifiers with the operand's (the three outcomes are proved as separate theorems). -/
-def L3PreO (op : Op) (o : Ordering) : Prop :=
+def L1PPreO (op : Op) (o : Ordering) : Prop :=
   ∀ (a b c : Nat), a < B∞' → b < B∞' → c < B∞' → ∀ (j : Ident) (l' : List Ident),
     (op = .le → ¬ (a = 0 ∧ b = 0 ∧ c = 0)) →
     ∀ (x y z : Nat) (i : Ident) (l : List Ident), cmpIdents (i :: l) (j :: l') = o →
-      L3Body op [.n a, .n b, .n c] (j :: l') x y z i l
+      L1PBody op [.n a, .n b, .n c] (j :: l') x y z i l
 
-theorem l3_pre_assemble (op : Op) (h1 : L3PreO op .lt) (h2 : L3PreO op .eq) (h3 : L3PreO op .gt) : L3Pre op := by
+theorem l1p_pre_assemble (op : Op) (h1 : L1PPreO op .lt) (h2 : L1PPreO op .eq) (h3 : L1PPreO op .gt) : L1PPre op := by
   intro a b c ha hb hc j l' hle x y z i l
   cases ho : cmpIdents (i :: l) (j :: l') with
   | lt => exact h1 a b c ha hb hc j l' hle x y z i l ho
@@ -133,7 +152,7 @@ theorem l3_pre_assemble (op : Op) (h1 : L3PreO op .lt) (h2 : L3PreO op .eq) (h3 
   | gt => exact h3 a b c ha hb hc j l' hle x y z i l ho
 
 /-- `PreAgree` fixes the library's result once the outcome of the reference comparison is known. -/
-macro "l3_pre" : tactic => `(tactic| (
+macro "l1p_pre" : tactic => `(tactic| (
   intro a b c ha hb hc j l' hle x y z i l e hx hy hz hpa h000 hgs hlp
   have hz0 := cmpIdents_zero_ne_lt i l
   try simp [NpmRange.pre000] at h000
@@ -147,10 +166,9 @@ macro "l3_pre" : tactic => `(tactic| (
   by_cases h0 : a = 0 <;> by_cases h1 : b = 0 <;> by_cases h2 : c = 0 <;>
     first
     | (refine absurd ⟨?_, ?_, ?_⟩ (hle rfl) <;> assumption)
-    | (l1_eval <;> l3_npm0)
-    | (by_cases hj : (j = Ident.num 0 ∧ l' = []) <;> l1_eval <;> l3_npm0)))
+    | (l1_eval <;> l1p_npm0)))
 
-macro "l3_part" : tactic => `(tactic| (
+macro "l1p_part" : tactic => `(tactic| (
   intro nums hs hnf x y z i l hx hy hz hpa h000 hgs hlp
   have hz0 := cmpIdents_zero_ne_lt i l
   try simp [NpmRange.pre000] at h000
@@ -160,29 +178,29 @@ macro "l3_part" : tactic => `(tactic| (
     have ia := natCast_beq_inf a ha; have ja := value_inc_nat a ha; have ka := natCast_succ_ne_inf a ha; have ib := natCast_beq_inf b hb; have jb := value_inc_nat b hb; have kb := natCast_succ_ne_inf b hb
     try simp [NpmRange.gtSuccPre, NpmRange.allComps] at hgs
     try simp [NpmRange.ltPartialPre, NpmRange.allComps, Partial.isPartial, Partial.isX, Partial.num] at hlp
-    by_cases h0 : a = 0 <;> by_cases h1 : b = 0 <;> l1_eval <;> l3_npm0
+    by_cases h0 : a = 0 <;> by_cases h1 : b = 0 <;> l1_eval <;> l1p_npm0
   | n2 a b ha hb =>
     have ia := natCast_beq_inf a ha; have ja := value_inc_nat a ha; have ka := natCast_succ_ne_inf a ha; have ib := natCast_beq_inf b hb; have jb := value_inc_nat b hb; have kb := natCast_succ_ne_inf b hb
     try simp [NpmRange.gtSuccPre, NpmRange.allComps] at hgs
     try simp [NpmRange.ltPartialPre, NpmRange.allComps, Partial.isPartial, Partial.isX, Partial.num] at hlp
-    by_cases h0 : a = 0 <;> by_cases h1 : b = 0 <;> l1_eval <;> l3_npm0
+    by_cases h0 : a = 0 <;> by_cases h1 : b = 0 <;> l1_eval <;> l1p_npm0
   | nxx a ha =>
     have ia := natCast_beq_inf a ha; have ja := value_inc_nat a ha; have ka := natCast_succ_ne_inf a ha
     try simp [NpmRange.gtSuccPre, NpmRange.allComps] at hgs
     try simp [NpmRange.ltPartialPre, NpmRange.allComps, Partial.isPartial, Partial.isX, Partial.num] at hlp
-    by_cases h0 : a = 0 <;> l1_eval <;> l3_npm0
+    by_cases h0 : a = 0 <;> l1_eval <;> l1p_npm0
   | nx a ha =>
     have ia := natCast_beq_inf a ha; have ja := value_inc_nat a ha; have ka := natCast_succ_ne_inf a ha
     try simp [NpmRange.gtSuccPre, NpmRange.allComps] at hgs
     try simp [NpmRange.ltPartialPre, NpmRange.allComps, Partial.isPartial, Partial.isX, Partial.num] at hlp
-    by_cases h0 : a = 0 <;> l1_eval <;> l3_npm0
+    by_cases h0 : a = 0 <;> l1_eval <;> l1p_npm0
   | n1 a ha =>
     have ia := natCast_beq_inf a ha; have ja := value_inc_nat a ha; have ka := natCast_succ_ne_inf a ha
     try simp [NpmRange.gtSuccPre, NpmRange.allComps] at hgs
     try simp [NpmRange.ltPartialPre, NpmRange.allComps, Partial.isPartial, Partial.isX, Partial.num] at hlp
-    by_cases h0 : a = 0 <;> l1_eval <;> l3_npm0
-  | x1 => l1_eval <;> l3_npm0
-  | xx => l1_eval <;> l3_npm0
-  | xxx => l1_eval <;> l3_npm0))
+    by_cases h0 : a = 0 <;> l1_eval <;> l1p_npm0
+  | x1 => l1_eval <;> l1p_npm0
+  | xx => l1_eval <;> l1p_npm0
+  | xxx => l1_eval <;> l1p_npm0))
 
 end DepsDev.Proofs.C03
